@@ -211,7 +211,7 @@ impl<'a> Tarjan<'a> {
             lemma_a_insert(low_2, self.on_stack@, self.stack@, u, vx_min_spec(low_2[u], low_2[v]));
             assert(self.abs() == with_low(s2, u as int, imin(s2.low[u as int], s2.low[v as int])));
         }
-    @before `if self.index.get(&u) == self.low_link.get(&u)`
+    @before `if self.index`
         let ghost sm = self.abs();
         let ghost (nbu, kf) = choose|nbu: Seq<usize>, kf: int| #[trigger] cinv(has, verts, s0, sm, u as int, a_seq(nbu), kf) && kf == nbu.len() && nb_complete(self.digraph, u, nbu);
         let ghost nbf = a_seq(nbu);
